@@ -72,7 +72,7 @@ NORMATIVE = {
     "C14": {"query-wrong-value", "query-wrong-height", "query-error-differs", "query-proof-presence-differs",
             "query-not-the-committed-value", "query-data-for-pruned-or-future-height",
             "proof-does-not-verify-at-its-height", "proof-verifies-wrong-height", "proof-proves-something-else",
-            "query-panics"},
+            "query-panics", "subspace-not-the-committed-pairs", "subspace-not-in-key-order"},
 }
 
 TIERS = {
@@ -132,6 +132,47 @@ NO_STRATEGY = "<pair>"
 RECOGNISED = ["nothing", "everything", "syncable"]
 UNRECOGNISED = ["", "Nothing", "archive"]   # unset option, wrong case, unknown word
 SIM_STRATEGIES = RECOGNISED + UNRECOGNISED    # = Strategies of MC_MultiStore_sim*.cfg
+
+
+# Key palettes: the specification's keys are opaque names; the driver maps them to bytes letter by
+# letter (storelib.Cfg.Palette: letter -> hex image, prefix-free images => injective and prefix
+# preserving).  In P1..P3 some name of the alphabet starts with the byte 0xFF; in P0, P1, P3 the
+# successor of the prefix "a" (PrefixEndBytes) is exactly the key "b"; in P1 / P2 a prefix is all 0xFF.
+PALETTES = [
+    {},                                         # P0 identity
+    {"a": "feff", "b": "ff", "c": "00"},        # P1
+    {"a": "ff", "b": "00", "c": "01"},          # P2
+    {"a": "ff01", "b": "ff02", "c": "fe"},      # P3
+    {"a": "00", "b": "01", "c": "ffff"},        # P4
+    {"a": "00", "b": "01", "c": "02"},          # P5 (no 0xFF anywhere)
+]
+# which palettes a check draws from.  With 0xFF in stored or queried keys the range proofs of the iavl
+# v0.12.4 dependency show further faces of its cpIncr defect: a proved query for an all-0xFF key panics
+# ("if keyStart and keyEnd are present, need keyStart < keyEnd": class `proved-all-ff-key`, known finding
+# KF-C14-proof-query-all-ff-key-panics) and two more classes of absence proofs do not verify
+# (KF-C14-absence-proof-ff-leading-*).  directed_ff_witness() shows these three in every C14 run.
+# SAMPLED proved queries are only issued under palettes without a 0xFF byte (P0, P5, drawn twice as
+# often in C14): under P1 a further class of non-verifying absence proofs showed at once
+# (left=pred;early_stop=False;skips_leaf=False;succ=True: keys feff and ff stored, feffff asked) and the
+# family is open-ended; it is one defect of the dependency, reported, and not enumerated class by class.
+# Unproved /key queries and /subspace queries run under every palette.
+PALSETS = {"all": [0, 1, 2, 3, 4], "C14": [0, 0, 5, 5, 1, 2, 3]}
+
+
+def has_ff(pal):
+    return any("ff" in [v[i:i + 2].lower() for i in range(0, len(v), 2)] for v in (pal or {}).values())
+
+
+def conc(pal, name):
+    out = b""
+    for ch in name:
+        out += bytes.fromhex(pal[ch]) if ch in (pal or {}) else ch.encode()
+    return out
+
+
+def pick_palette(rng, palset="all"):
+    ids = PALSETS[palset]
+    return PALETTES[ids[rng.randrange(len(ids))]]
 
 
 def tla_set(xs):
@@ -211,15 +252,15 @@ def cp_incr(b):
     return None
 
 
-def proof_class(key, value, content):
+def proof_class(key, value, content, pal=None):
     """Input class of a proved query: existence, or absence with the position of the key among
     the keys present at that height (used to give proof findings a precise signature)."""
     if value is not None:
         return {"proof_kind": "value"}
     if content is None:
         return {"proof_kind": "absence", "absence_cls": "unknown"}
-    kb = key.encode()
-    ks = sorted(k.encode() for k in content)
+    kb = conc(pal, key)
+    ks = sorted(conc(pal, k) for k in content)
     if key in content:
         return {"proof_kind": "absence", "absence_cls": "key-is-present"}
     if not ks:
@@ -263,37 +304,50 @@ class Issues:
 # spec behaviour -> driver program
 
 
-def to_program(h, pid, backend, faults, obs_budget, rng, prune_after_flush=False):
+def to_program(h, pid, backend, faults, obs_budget, rng, prune_after_flush=False, salt=None, palset="all"):
     """Turn one recorded spec behaviour into a driver program.  Returns (program, plan) where plan[i]
     describes what driver step i realises (spec entries, expected values)."""
     steps, plan = [], []
-    rng = random.Random("%s|%s" % (pid, obs_budget))   # same sampling when a replay file is re-executed
+    # same sampling (and key palette) when a replay file is re-executed; salt = the run's seed
+    rng = random.Random("%s|%s" % (pid, obs_budget) if salt is None else "%s|%s|%s" % (pid, obs_budget, salt))
     done = []          # durable writes of the running commit, as the spec did them
     cstart = None
     pending_flush = None
     post_prunes = 0
 
+    palette = pick_palette(rng, palset)
+
     def obs_args(e):
         o = e.get("obs") or {}
         loads = [x["v"] for x in (o.get("loads") or [])]
         qs = list(o.get("queries") or [])
+        if has_ff(palette):
+            qs = [q for q in qs if not q[4]]   # no sampled proved queries under 0xFF palettes (see PALSETS)
         if obs_budget is not None and len(qs) > obs_budget:
             qs = rng.sample(qs, obs_budget)
-        return loads, qs, o
+        ss = list(o.get("subs") or [])
+        if obs_budget is not None and len(ss) > max(4, obs_budget // 3):
+            ss = rng.sample(ss, max(4, obs_budget // 3))
+        return loads, (qs, ss), o
+
+    def put_obs(st, loads, qss):
+        if loads:
+            st["loads"] = loads
+        if qss[0]:
+            st["queries"] = [q[:5] for q in qss[0]]
+        if qss[1]:
+            st["subs"] = [q[:4] for q in qss[1]]
 
     def emit_commit():
         nonlocal pending_flush, done
         e = pending_flush
         loads, qs, o = obs_args(e)
         st = {"a": "commit", "faults": bool(faults), "tries": 3}
-        if loads:
-            st["loads"] = loads
-        if qs:
-            st["queries"] = [q[:5] for q in qs]
+        put_obs(st, loads, qs)
         steps.append(st)
         # a behaviour may end (HistLen) between the flush and the last pruning step
         cut = prune_after_flush and post_prunes < len(STORES)
-        plan.append({"kind": "commit", "flush": e, "start": cstart, "writes": None if cut else list(done), "queries": qs, "obs": o})
+        plan.append({"kind": "commit", "flush": e, "start": cstart, "writes": None if cut else list(done), "queries": qs[0], "subs": qs[1], "obs": o})
         pending_flush = None
         done = []
 
@@ -315,12 +369,9 @@ def to_program(h, pid, backend, faults, obs_budget, rng, prune_after_flush=False
         if a == "reopen":
             loads, qs, o = obs_args(e)
             st = {"a": "reopen"}
-            if loads:
-                st["loads"] = loads
-            if qs:
-                st["queries"] = [q[:5] for q in qs]
+            put_obs(st, loads, qs)
             steps.append(st)
-            plan.append({"kind": "reopen", "e": e, "queries": qs, "obs": o})
+            plan.append({"kind": "reopen", "e": e, "queries": qs[0], "subs": qs[1], "obs": o})
         elif a == "write":
             op = e["op"]
             steps.append({"a": "write", "op": {"s": op["s"], "k": op["k"], "v": op["v"], "del": bool(op["del"])}})
@@ -332,14 +383,11 @@ def to_program(h, pid, backend, faults, obs_budget, rng, prune_after_flush=False
             cstart = e
             done = []
             loads, qs, o = obs_args(e)
-            if loads or qs:
+            if loads or qs[0] or qs[1]:
                 st = {"a": "observe"}
-                if loads:
-                    st["loads"] = loads
-                if qs:
-                    st["queries"] = [q[:5] for q in qs]
+                put_obs(st, loads, qs)
                 steps.append(st)
-                plan.append({"kind": "observe", "queries": qs, "obs": o})
+                plan.append({"kind": "observe", "queries": qs[0], "subs": qs[1], "obs": o})
         elif a in ("save", "prune"):
             if e["w"]:
                 done.append("%s:%s:%d" % (e["w"], e["s"], e["v"]))
@@ -366,6 +414,8 @@ def to_program(h, pid, backend, faults, obs_budget, rng, prune_after_flush=False
         # the driver resolves the string with the real store.NewPruningOptionsFromString and ignores
         # kr / ke (which are what the specification's transcription made of it)
         cfg["strat"] = strat_of(h)
+    if palette:
+        cfg["palette"] = palette
     return {"id": pid, "cfg": cfg, "steps": steps}, plan
 
 
@@ -577,7 +627,58 @@ def check_loads(iss, real_loads, spec_obs, fields, committed, clean):
                 iss.add("model:view-outcome-differs", "versioned view %d: real ok=%s, specification ok=%s" % (v, rv.get("ok"), sv.get("ok")), **f)
 
 
-def check_queries(iss, real_qs, spec_qs, fields, hashes, clean, stats, committed=None):
+def prefix_end(b):
+    """store/types.PrefixEndBytes."""
+    b = bytearray(b)
+    while b:
+        if b[-1] != 255:
+            b[-1] += 1
+            return bytes(b)
+        b.pop()
+    return None
+
+
+def check_subs(iss, real_ss, spec_ss, fields, clean, stats, pal=None, committed=None):
+    """"/subspace" queries: exactly the committed pairs of the latest version under the prefix, in key
+    order.  The specification's entry is <<via, store, prefix, height, answered, pairs>>."""
+    for rq, sq in zip(real_ss or [], spec_ss or []):
+        via, s, p, h, sok, skv = sq
+        f = dict(fields, query=[via, s, p, h], cls="subspace")
+        if rq.get("q") != [via, s, p, h]:
+            raise common.ToolError("driver answered a different subspace query: %s vs %s" % (rq.get("q"), sq[:4]))
+        sc = stats.setdefault("subspace", {"queries": 0, "nonempty": 0, "successor_of_prefix_stored": 0, "all_ff_prefix": 0})
+        sc["queries"] += 1
+        if "panic" in rq:
+            iss.add("query-panics", "Query %s (subspace) panics: %s" % (f["query"], rq["panic"]), **f)
+            continue
+        tag = "" if clean else "model:"
+        want = nmap(skv)
+        if bool(rq.get("answered")) != bool(sok):
+            iss.add(tag + "subspace-not-the-committed-pairs", "subspace query %s: answered=%s (%s), the specification: answered=%s %s"
+                    % (f["query"], rq.get("answered"), (rq.get("log") or "")[:120], sok, want), **f)
+            continue
+        if not sok:
+            continue
+        pairs = [tuple(x) for x in rq.get("kv") or []]
+        got = dict(pairs)
+        if want:
+            sc["nonempty"] += 1
+        pb = conc(pal, p)
+        if pb == b"\xff" * len(pb):
+            sc["all_ff_prefix"] += 1 if want else 0
+        if committed:
+            succ = prefix_end(pb)
+            if succ is not None and any(conc(pal, k) == succ for k in (committed[max(committed)].get(s) or {})):
+                sc["successor_of_prefix_stored"] += 1
+        if got != want:
+            iss.add(tag + "subspace-not-the-committed-pairs",
+                    "subspace query %s (prefix bytes %s) returns %s, the committed pairs of the latest version under that prefix are %s"
+                    % (f["query"], pb.hex(), json.dumps(pairs), json.dumps(sorted(want.items()))), **f)
+        if not rq.get("sorted") or len(pairs) != len(got):
+            iss.add("subspace-not-in-key-order", "subspace query %s returns %s: not strictly ascending in key order" % (f["query"], json.dumps(pairs)), **f)
+
+
+def check_queries(iss, real_qs, spec_qs, fields, hashes, clean, stats, committed=None, pal=None):
     for rq, sq in zip(real_qs or [], spec_qs or []):
         via, s, k, h, p, serr, sval, sproof, sheight, sver = sq
         f = dict(fields, query=[via, s, k, h, p])
@@ -585,7 +686,10 @@ def check_queries(iss, real_qs, spec_qs, fields, hashes, clean, stats, committed
         if rq.get("q") != [via, s, k, h, p]:
             raise common.ToolError("driver answered a different query: %s vs %s" % (rq.get("q"), sq[:5]))
         if "panic" in rq:
-            iss.add("query-panics", "Query %s panics: %s" % (f["query"], rq["panic"]), **f)
+            kb = conc(pal, k)
+            if p and kb and kb == b"\xff" * len(kb):
+                f["cls"] = "proved-all-ff-key"   # nothing else about the query matters
+            iss.add("query-panics", "Query %s (key bytes %s) panics: %s" % (f["query"], kb.hex(), rq["panic"]), **f)
             continue
         rerr = rq.get("code", 0) != 0
         rproof = rq.get("nops", 0) > 0
@@ -607,7 +711,7 @@ def check_queries(iss, real_qs, spec_qs, fields, hashes, clean, stats, committed
             stats["proofs"] += 1
             got = rq.get("verifies") or []
             hh = rq.get("height")
-            f.update(proof_class(k, rq.get("value"), ((committed or {}).get(hh) or {}).get(s)))
+            f.update(proof_class(k, rq.get("value"), ((committed or {}).get(hh) or {}).get(s), pal))
             f["cls"] = f.get("absence_cls") or f["proof_kind"]
             pc = stats.setdefault("proof_classes", {}).setdefault(f["cls"], {"proofs": 0, "not_verifying": 0})
             pc["proofs"] += 1
@@ -631,6 +735,22 @@ def compare_behaviour(iss, h, prog, plan, res, tokhash, stats):
     # transcription StrategyOpts makes of it); the real store's come from the real function
     kr, ke = h["kr"], h["ke"]
     base = {"kr": kr, "ke": ke, "spal": bool(h.get("spal")), "id": prog["id"], "strat": strat_of(h)}
+    pal = prog["cfg"].get("palette") or {}
+    # equal write histories (by key NAME) must give equal hashes - among programs with the same palette
+    tokhash = tokhash.setdefault("palette " + json.dumps(pal, sort_keys=True), {})
+    ps = stats.setdefault("palettes", {"programs": 0, "with_a_first_byte_ff": 0, "transient_ff_key_committed": 0})
+    ps["programs"] += 1
+    if any(v.lower().startswith("ff") for v in pal.values()):
+        ps["with_a_first_byte_ff"] += 1
+    tff = False
+    for st in prog["steps"]:
+        if st["a"] == "write" and st["op"]["s"] == TSTORE and not st["op"]["del"] and conc(pal, st["op"]["k"])[:1] == b"\xff":
+            tff = True
+        elif st["a"] == "commit" and tff:
+            ps["transient_ff_key_committed"] += 1
+            tff = False
+        elif st["a"] in ("reopen", "crash", "crashcommit", "liveload"):
+            tff = False
     if strat_of(h) is not None:
         bs = stats.setdefault("strategy_behaviours", {})
         bs[strat_of(h)] = bs.get(strat_of(h), 0) + 1
@@ -668,7 +788,8 @@ def compare_behaviour(iss, h, prog, plan, res, tokhash, stats):
         elif kind == "observe":
             clean = bool(pl["obs"].get("clean"))
             check_loads(iss, o.get("loads"), pl["obs"], f, committed, clean)
-            check_queries(iss, o.get("queries"), pl["queries"], f, hashes, clean, stats, committed)
+            check_queries(iss, o.get("queries"), pl["queries"], f, hashes, clean, stats, committed, pal)
+            check_subs(iss, o.get("subs"), pl.get("subs"), f, clean, stats, pal, committed)
         elif kind == "reopen":
             e = pl["e"]
             exp = e["exp"]
@@ -709,7 +830,8 @@ def compare_behaviour(iss, h, prog, plan, res, tokhash, stats):
             note_token(iss, tokhash, exp.get("tok"), o.get("hash"), f)
             clean = bool((pl["obs"] or {}).get("clean"))
             check_loads(iss, o.get("loads"), pl["obs"] or {}, f, committed, clean)
-            check_queries(iss, o.get("queries"), pl["queries"], f, hashes, clean, stats, committed)
+            check_queries(iss, o.get("queries"), pl["queries"], f, hashes, clean, stats, committed, pal)
+            check_subs(iss, o.get("subs"), pl.get("subs"), f, clean, stats, pal, committed)
         elif kind == "crash":
             pass
         elif kind == "crashcommit":
@@ -783,7 +905,8 @@ def compare_behaviour(iss, h, prog, plan, res, tokhash, stats):
                 judge_faults(iss, o["faults"], n, pre, post, o.get("hash"), committed, base, stats, o.get("storevers"))
             clean = bool((pl["obs"] or {}).get("clean"))
             check_loads(iss, o.get("loads"), pl["obs"] or {}, f, committed, clean)
-            check_queries(iss, o.get("queries"), pl["queries"], f, hashes, clean, stats, committed)
+            check_queries(iss, o.get("queries"), pl["queries"], f, hashes, clean, stats, committed, pal)
+            check_subs(iss, o.get("subs"), pl.get("subs"), f, clean, stats, pal, committed)
     stats["behaviours"] += 1
 
 
@@ -1041,9 +1164,10 @@ def simulate_and_replay(out, d, prop, tier, seed, rng, devs):
         budget = None
         if prop == "C14" and tier == "quick":
             budget = 40
-        prog, plan = to_program(h, i, backend, faults, budget, rng, "PruneBeforeFlush" not in devs)
+        prog, plan = to_program(h, i, backend, faults, budget, rng, "PruneBeforeFlush" not in devs, salt=seed, palset="C14" if prop == "C14" else "all")
         progs.append(prog)
-        meta[i] = (h, prog, plan, {"pid": i, "backend": backend, "faults": faults, "budget": budget, "paf": "PruneBeforeFlush" not in devs})
+        meta[i] = (h, prog, plan, {"pid": i, "backend": backend, "faults": faults, "budget": budget, "paf": "PruneBeforeFlush" not in devs,
+                                   "salt": seed, "palset": "C14" if prop == "C14" else "all"})
     results = run_programs(d, progs, "sim", parallel=min(8, common.NCPU))
     iss, stats, tokhash = Issues(), new_stats(), {}
     for i, (h, prog, plan, build) in meta.items():
@@ -1054,7 +1178,7 @@ def simulate_and_replay(out, d, prop, tier, seed, rng, devs):
             x.setdefault("origin", "tlc-simulation")
             x.setdefault("behaviour", slim(h))
             x.setdefault("build", build)
-    stats["distinct_histories_hashed"] = len(tokhash)
+    stats["distinct_histories_hashed"] = sum(len(x) for x in tokhash.values())
     stats["goleveldb_behaviours"] = sum(1 for p in progs if p["cfg"]["backend"] == "goleveldb")
     return iss, stats, uniq
 
@@ -1087,6 +1211,11 @@ def record_and_validate(out, d, prop, tier, seed, rng, devs):
                     "--backend", r.get("backend", "memdb")]
         if r.get("pll"):
             args += ["--pliveload", str(r["pll"])]
+        pal = pick_palette(rng, "C14" if prop == "C14" else "all")
+        if pal:
+            args += ["--palette", json.dumps(pal, sort_keys=True)]
+        if has_ff(pal):
+            args.append("--noprove")
         if "PruneBeforeFlush" not in devs:
             args.append("--prune-after-flush")
         spal = r.get("spal")
@@ -1098,11 +1227,15 @@ def record_and_validate(out, d, prop, tier, seed, rng, devs):
         if p.returncode != 0:
             raise common.ToolError("storedrv record failed: %s" % p.stderr[-2000:])
         ls = [x for x in p.stdout.splitlines() if x.strip()]
-        metas.append({"args": args, "first_line": len(lines) + 1, "lines": len(ls), "kr": krv, "ke": kev, "strat": strat})
+        metas.append({"args": args, "first_line": len(lines) + 1, "lines": len(ls), "kr": krv, "ke": kev, "strat": strat, "palette": pal})
         lines.extend(ls)
     iss, stats = validate_lines(out, d, lines, metas, devs)
     stats["histories"] = len(runs)
     return iss, stats
+
+
+def palette_of_args(args):
+    return json.loads(args[args.index("--palette") + 1]) if "--palette" in args else {}
 
 
 def live_load_counts(evs):
@@ -1167,8 +1300,13 @@ def validate_lines(out, d, lines, metas, devs):
                     "Commit issued a durable write outside the protocol: %s" % cls, **f)
         elif e["a"] == "commitpanic":
             iss.add("commit-panics", "Commit panics: %s" % e.get("err"), **f)
-        elif e["a"] == "query" and e.get("panic"):
-            iss.add("query-panics", "Query %s panics: %s" % ([e["via"], e["s"], e["k"], e["h"], e["p"]], e["panic"]), **f)
+        elif e["a"] == "querypanic" and e.get("sub"):
+            iss.add("query-panics", "Query %s (subspace) panics: %s" % ([e["via"], e["s"], e["k"], e["h"]], e["panic"]), **f)
+        elif e["a"] == "querypanic":
+            kb = conc(m.get("palette") or palette_of_args(m["args"]), e["k"])
+            if e["p"] and kb and kb == b"\xff" * len(kb):
+                f["cls"] = "proved-all-ff-key"
+            iss.add("query-panics", "Query %s (key bytes %s) panics: %s" % ([e["via"], e["s"], e["k"], e["h"], e["p"]], kb.hex(), e["panic"]), **f)
         elif e["a"] == "tool_error":
             iss.tool.append("record: %s" % e.get("err"))
     ends = parse_printed(res.out, "TRACE-END")
@@ -1178,6 +1316,9 @@ def validate_lines(out, d, lines, metas, devs):
              "queries": sum(1 for e in evs if e["a"] == "query"),
              "pruned_loads_seen": sum(1 for e in evs if e["a"] == "load" and not e.get("ok")),
              "live_loads": live_load_counts(evs),
+             "subspace_queries": sum(1 for e in evs if e["a"] == "subspace"),
+             "subspace_queries_nonempty": sum(1 for e in evs if e["a"] == "subspace" and e.get("kv")),
+             "palettes": [m.get("palette") or palette_of_args(m["args"]) for m in metas],
              "strategy_histories": sorted(m["strat"] for m in metas if m.get("strat") is not None),
              "runs": [{"args": m["args"], "lines": m["lines"], "kr": m["kr"], "ke": m["ke"], "strat": m.get("strat")} for m in metas]}
     if not accepted:
@@ -1200,7 +1341,7 @@ def validate_lines(out, d, lines, metas, devs):
                 for e2 in evs[m["first_line"] - 1:ln]:
                     if e2["a"] == "flush" and e2.get("ver") == ev.get("height"):
                         content = (e2.get("stores") or {}).get(ev["s"])
-                extra = proof_class(ev["k"], nval(ev.get("value")), content)
+                extra = proof_class(ev["k"], nval(ev.get("value")), content, m.get("palette") or palette_of_args(m["args"]))
                 extra["cls"] = extra.get("absence_cls") or extra["proof_kind"]
                 extra["query"] = [ev["via"], ev["s"], ev["k"], ev["h"], ev["p"]]
             iss.add(b["kind"], "recorded history line %d (line %d of `storedrv %s`): %s: %s"
@@ -1233,6 +1374,29 @@ def report(out, prop, iss, where):
         cnt["%s|%s|%s" % (where, sig, cls)] = n
 
 
+def directed_ff_witness(out, d, prop):
+    """One directed program per C14 run that shows the three 0xFF faces of the dependency's range-proof
+    defect deterministically (sampling alone does not guarantee them): palette P2 ("a" = 0xFF, "b" =
+    0x00), store s1 = {a: x} committed as version 1, then three proved queries at height 1.  What the
+    specification's QueryMS answers for them is written out here (value of `a`, absence of `ab` and
+    `b`, each with a proof that verifies at height 1)."""
+    pal = PALETTES[2]
+    prog = {"id": "directed-ff", "cfg": {"stores": STORES, "transient": TSTORE, "kr": 0, "ke": 1, "backend": "memdb", "spal": False, "palette": pal},
+            "steps": [{"a": "reopen"}, {"a": "write", "op": {"s": "s1", "k": "a", "v": "x", "del": False}}, {"a": "commit", "faults": False, "tries": 1},
+                      {"a": "observe", "queries": [["ms", "s1", "a", 1, True], ["ms", "s1", "ab", 1, True], ["ms", "s1", "b", 1, True]]}]}
+    res = run_programs(d, [prog], "directed", parallel=1).get("directed-ff") or {}
+    obs = res.get("obs") or []
+    if res.get("tool_error") or len(obs) != 4 or not obs[2].get("ok"):
+        raise common.ToolError("directed 0xFF witness did not run: %s" % json.dumps(res)[:500])
+    spec_qs = [["ms", "s1", "a", 1, True, False, "x", True, 1, [1]], ["ms", "s1", "ab", 1, True, False, "<nil>", True, 1, [1]],
+               ["ms", "s1", "b", 1, True, False, "<nil>", True, 1, [1]]]
+    iss, stats = Issues(), new_stats()
+    fields = {"kr": 0, "ke": 1, "spal": False, "strat": None, "id": "directed-ff", "step": 3, "origin": "directed-witness", "program": prog}
+    check_queries(iss, obs[3].get("queries"), spec_qs, fields, {1: obs[2].get("hash")}, True, stats, {1: {"s1": {"a": "x"}, "s2": {}}}, pal)
+    out.notes["directed_ff_witness"] = sorted("%s|%s" % (x["sig"], x.get("cls")) for x in iss.items)
+    report(out, prop, iss, "directed witness of the 0xFF faces of the dependency's range-proof defect")
+
+
 def check_not_vacuous(prop, stats, tstats):
     """The two extensions must have been exercised on the real code in this very run."""
     sim = stats.get("live_loads") or {}
@@ -1243,6 +1407,17 @@ def check_not_vacuous(prop, stats, tstats):
         raise common.ToolError("vacuous: no recorded history contains a failing LoadVersion of a pruned version on the live store (%s)" % rec)
     if sim.get("ok_older", 0) + sim.get("ok_latest", 0) == 0:
         raise common.ToolError("vacuous: no replayed behaviour contains a succeeding LoadVersion on the live store (%s)" % sim)
+    ps = stats.get("palettes") or {}
+    if ps.get("with_a_first_byte_ff", 0) * 3 < ps.get("programs", 1):
+        raise common.ToolError("vacuous: fewer than a third of the replayed programs use a key palette with a first byte 0xFF (%s)" % ps)
+    if prop == "C12" and not ps.get("transient_ff_key_committed"):
+        raise common.ToolError("vacuous: no replayed program commits after writing a transient key whose first byte is 0xFF (%s)" % ps)
+    if prop == "C14":
+        sc = stats.get("subspace") or {}
+        if not sc.get("successor_of_prefix_stored") or not sc.get("nonempty") or sc.get("queries", 0) == sc.get("nonempty", 0):
+            raise common.ToolError("vacuous: the replayed subspace queries lack a prefix whose successor is a stored key, a non-empty or an empty answer (%s)" % sc)
+        if not tstats.get("subspace_queries_nonempty"):
+            raise common.ToolError("vacuous: no recorded subspace query with a non-empty answer")
     sb = stats.get("strategy_behaviours") or {}
     missing = [s for s in UNRECOGNISED if not sb.get(s)]
     if missing:
@@ -1283,6 +1458,8 @@ def run(prop, tier, seed):
         out.notes["t_replay_s"] = round(time.time() - t0, 1)
         out.cov["traces_validated_against_impl"] += stats["behaviours"]
         report(out, prop, iss, "replay of TLC behaviours")
+        if prop == "C14":
+            directed_ff_witness(out, d, prop)
         if uniq:
             h = uniq[0]
             out.sample({"pruning": [h["kr"], h["ke"]],
@@ -1322,7 +1499,7 @@ def replay(prop, path):
     with common.Scratch() as d:
         if v.get("behaviour") and v.get("build"):
             b = v["build"]
-            prog, plan = to_program(v["behaviour"], b["pid"], b["backend"], b["faults"], b["budget"], None, b.get("paf", False))
+            prog, plan = to_program(v["behaviour"], b["pid"], b["backend"], b["faults"], b["budget"], None, b.get("paf", False), salt=b.get("salt"), palset=b.get("palset", "all"))
             print("driver input (%s replay <file>):\n%s" % (os.path.join(common.BIN, "storedrv"), json.dumps(prog)[:3000]))
             res = run_programs(d, [prog], "replay", parallel=1).get(prog["id"]) or {}
             for o in res.get("obs") or []:
